@@ -57,11 +57,12 @@ SHARD = 40
 
 class EncOp(torch.nn.Module):
     def forward(self, x):
+        self.seen = x.detach().clone()     # the op keeps its own copy: no reliance on tangermeme's hook fields
         return x * 1.0
 
 
 def enc_rule(module, grad_input, grad_output):
-    inp = module.input
+    inp = module.seen
     B = inp.shape[0] // 2
     x, r = inp[:B], inp[B:]
     g = 60.0 * (x + 4.0 * r + 32.0 * module.t[:B, None, None])
